@@ -93,11 +93,15 @@ func (pq *priorityQueue) Peek() *PriorityQueueItem {
 func (pq *priorityQueue) Reverse() PriorityQueue {
     switch pq.queue.(type) {
     case *minPriorityQueue:
-        queue := maxPriorityQueue(*pq.queue.(*minPriorityQueue))
+        src := *pq.queue.(*minPriorityQueue)
+        queue := make(maxPriorityQueue, len(src))
+        copy(queue, src)
 
         return initializePriorityQueue(&queue)
     case *maxPriorityQueue:
-        queue := minPriorityQueue(*pq.queue.(*maxPriorityQueue))
+        src := *pq.queue.(*maxPriorityQueue)
+        queue := make(minPriorityQueue, len(src))
+        copy(queue, src)
 
         return initializePriorityQueue(&queue)
     default:
